@@ -289,13 +289,86 @@ func posIndex
   option pure
   ensures while-a-candidate-row-is-tested-the-position-is-just-past-the-matched-rows-otherwise-the-current-row: result == ite(ctx.candidate != nil, len(ctx.rows), ctx.cur)
 
-extern optInt
+func optInt
   props C15
   option pure
+  ensures a-missing-argument-takes-the-default: idx >= len(args) ==> result == def
+  before Atoi the-number-read-is-the-argument-at-that-position-blanks-aside: $arg0 == strings.TrimSpace(args[idx])
+  observe n := Atoi
+  observe nerr := Atoi#1
+  atreturn an-argument-that-is-a-number-is-that-number-anything-else-the-default: idx < len(args) ==> result == ite($nerr == nil, $n, def)
 
-extern fieldName
+pred sqBare(a) := strings.Trim(strings.TrimSpace(a), "`")
+pred sqQuoted(t) := len(t) >= 2 && ((t[0] == 39 && t[len(t) - 1] == 39) || (t[0] == 34 && t[len(t) - 1] == 34))
+
+// an argument written in a DEFINE / MEASURES expression: blanks, backticks and one pair of quotes dropped
+func stripQuotes
+  props C15
+  option safety
+  option pure
+  ensures blanks-backticks-and-one-pair-of-quotes-are-dropped: result == ite(sqQuoted(sqBare(a)), sqBare(a)[1:len(sqBare(a)) - 1], sqBare(a))
+
+// what counts as true for a DEFINE condition: a boolean is itself, a number is true unless zero, text unless empty,
+// anything else unless NULL
+func truthy
   props C15
   option pure
+  ensures a-boolean-is-itself: hasType(v, bool) ==> (result <==> boolval(v))
+  ensures a-number-is-true-unless-zero: (hasType(v, float64) ==> (result <==> realval(v) != 0.0)) && (hasType(v, int) || hasType(v, int64) ==> (result <==> intval(v) != 0))
+  ensures text-is-true-unless-empty: hasType(v, string) ==> (result <==> strval(v) != "")
+  ensures null-is-false: v == nil ==> !result
+
+// A.price names the column price of the rows labelled A; a bare name has no symbol
+func fieldAndSymbol
+  props C15
+  option safety
+  option pure
+  ensures a-qualified-argument-splits-at-its-first-dot: strings.IndexByte(strings.TrimSpace(arg), 46) >= 0 ==> field == stripQuotes(strings.TrimSpace(arg)[strings.IndexByte(strings.TrimSpace(arg), 46) + 1:]) && symbol == stripQuotes(strings.TrimSpace(arg)[:strings.IndexByte(strings.TrimSpace(arg), 46)])
+  ensures a-bare-argument-has-no-symbol: strings.IndexByte(strings.TrimSpace(arg), 46) < 0 ==> field == stripQuotes(strings.TrimSpace(arg)) && symbol == ""
+
+// navigation and aggregate calls of DEFINE / MEASURES: each name is answered by its own reader with these arguments on
+// this match context (PREV looks one row back, NEXT one ahead; FIRST from the head, LAST from the tail); CLASSIFIER is
+// the candidate's label while a candidate is tested, else the label at the cursor; an unknown name is an error
+func evalNav
+  props C15
+  option assumed_frame
+  requires ctx != nil
+  observe pos := positionalField
+  observe fe := fromEndField
+  observe agg := aggregate
+  before positionalField prev-looks-one-row-back-next-one-ahead: $arg0 == ctx && $arg1 == args && $arg2 == ite(name == "PREV", -1, 1)
+  before fromEndField first-reads-from-the-head-last-from-the-tail-over-the-running-or-final-range-asked-for: $arg0 == ctx && $arg1 == args && $arg2 == (name == "FIRST") && $arg3 == final
+  before aggregate an-aggregate-is-computed-under-its-own-name-over-the-range-asked-for: $arg0 == name && $arg1 == args && $arg2 == ctx && $arg3 == final
+  atreturn classifier-is-the-candidates-label-while-one-is-tested-else-the-label-at-the-cursor: name == "CLASSIFIER" ==> result1 == nil && result0 == ite(ctx.candidate != nil, boxof(ctx.candLabel, string), ite(ctx.cur >= 0 && ctx.cur < len(ctx.labels), boxof(ctx.labels[ctx.cur], string), nil))
+  atreturn match-number-is-the-contexts: name == "MATCH_NUMBER" ==> result1 == nil && result0 == boxof(ctx.matchNumber, int)
+  atreturn a-navigation-call-returns-what-its-reader-found: (name == "PREV" || name == "NEXT" ==> result1 == nil && result0 == $pos) && (name == "FIRST" || name == "LAST" ==> result1 == nil && result0 == $fe) && (name == "SUM" || name == "AVG" || name == "COUNT" || name == "MIN" || name == "MAX" ==> result1 == nil && result0 == $agg)
+  atreturn an-unknown-name-is-an-error: name != "CLASSIFIER" && name != "MATCH_NUMBER" && name != "PREV" && name != "NEXT" && name != "FIRST" && name != "LAST" && name != "SUM" && name != "AVG" && name != "COUNT" && name != "MIN" && name != "MAX" ==> result1 != nil && result0 == nil
+
+pred candCarries(ctx, symbol) := ctx.candidate != nil && labelMatches(ctx.candLabel, symbol, ctx.subsets)
+
+// A.price in a DEFINE / MEASURES expression: the candidate row answers when it carries the symbol, otherwise the LATEST
+// row matched so far that carries it; no such row gives NULL
+func resolveSymbolField
+  props C15
+  option safety
+  requires ctx != nil && len(ctx.labels) <= len(ctx.rows)
+  ensures the-candidate-row-answers-when-it-carries-the-symbol: candCarries(ctx, symbol) ==> result == ctx.candidate[field]
+  ensures otherwise-the-latest-matched-row-that-carries-the-symbol-answers: !candCarries(ctx, symbol) ==> forall(j, 0, len(ctx.labels), labelMatches(ctx.labels[j], symbol, ctx.subsets) && forall(k, j + 1, len(ctx.labels), !labelMatches(ctx.labels[k], symbol, ctx.subsets)) ==> result == ctx.rows[j][field])
+  ensures no-row-carries-the-symbol-null: !candCarries(ctx, symbol) && forall(k, 0, len(ctx.labels), !labelMatches(ctx.labels[k], symbol, ctx.subsets)) ==> result == nil
+  loop 1 invariant -1 <= i && i < len(ctx.labels) && !candCarries(ctx, symbol) && forall(k, i + 1, len(ctx.labels), !labelMatches(ctx.labels[k], symbol, ctx.subsets))
+  loop 1 decreases i + 1
+
+// the row a DEFINE condition is about: the candidate row while one is being tested, else the row at the cursor
+func currentRow
+  props C15
+  option safety
+  requires ctx != nil
+  ensures the-candidate-row-while-one-is-tested-else-the-row-at-the-cursor: result == ite(ctx.candidate != nil, ctx.candidate, ite(ctx.cur >= 0 && ctx.cur < len(ctx.rows), ctx.rows[ctx.cur], nil))
+
+func fieldName
+  props C15
+  option pure
+  ensures the-column-is-the-last-segment-of-the-unquoted-argument: result == ite(strings.LastIndex(stripQuotes(arg), ".") >= 0, stripQuotes(arg)[strings.LastIndex(stripQuotes(arg), ".") + 1:], stripQuotes(arg))
 
 func positionalField
   props C15
